@@ -157,8 +157,12 @@ func subvec(args ...MalType) (MalType, error) {
 		from = args[1].(int)
 		to = args[2].(int)
 	}
+	if from < 0 || to > len(v.Val) || from > to {
+		return nil, fmt.Errorf("subvec: index out of range (from %d to %d on a vector of %d elements)", from, to, len(v.Val))
+	}
+	// three-index slice: the result must not see (or give access to) the spare capacity of v
 	return Vector{
-		Val: v.Val[from:to],
+		Val: v.Val[from:to:to],
 	}, nil
 }
 
